@@ -407,10 +407,17 @@ pub fn run(cfg: &Cfg, rep: &mut Report) {
             let bw = engine::compile(&engine::to_cps("^\\b.\\b$"), Flags { s: true, ..flags }, false).ok().and_then(|r| r.ok());
             let cw = engine::compile(&engine::to_cps("^[\\w]$"), flags, false).ok().and_then(|r| r.ok());
             let cnw = engine::compile(&engine::to_cps("^[\\W]$"), flags, false).ok().and_then(|r| r.ok());
+            // the same questions where the optimizer copies the assertion (counted groups are
+            // unrolled), inside lookarounds, and with \B
+            let sflags = Flags { s: true, ..flags };
+            let bw1 = engine::compile(&engine::to_cps("^(?:\\b.\\b){1}$"), sflags, false).ok().and_then(|r| r.ok());
+            let bw2 = engine::compile(&engine::to_cps("^(?:\\b.\\b-?){1,2}$"), sflags, false).ok().and_then(|r| r.ok());
+            let bw3 = engine::compile(&engine::to_cps("^(?=\\b).(?<=\\b.)(?<!\\B.)$"), sflags, false).ok().and_then(|r| r.ok());
+            let nb1 = engine::compile(&engine::to_cps("^(?:\\B.\\B){1,3}$"), sflags, false).ok().and_then(|r| r.ok());
             for c in cands.iter() {
                 let s = char::from_u32(c).unwrap().to_string();
                 let want = sat.contains(c);
-                let probes: Vec<(&str, Option<&regress::Regex>, bool)> = vec![("\\w", Some(&w), want), ("\\W", nw.as_ref(), !want), ("\\b", bw.as_ref(), want), ("[\\w]", cw.as_ref(), want), ("[\\W]", cnw.as_ref(), !want)];
+                let probes: Vec<(&str, Option<&regress::Regex>, bool)> = vec![("\\w", Some(&w), want), ("\\W", nw.as_ref(), !want), ("\\b", bw.as_ref(), want), ("[\\w]", cw.as_ref(), want), ("[\\W]", cnw.as_ref(), !want), ("(?:\\b.\\b){1}", bw1.as_ref(), want), ("(?:\\b.\\b-?){1,2}", bw2.as_ref(), want), ("(?=\\b).(?<=\\b.)(?<!\\B.)", bw3.as_ref(), want), ("(?:\\B.\\B){1,3}", nb1.as_ref(), !want)];
                 for (name, re, want) in probes {
                     let Some(re) = re else { continue };
                     let got = matches!(engine::find_first(re, &s, 0, Api::Utf8, 1_000_000), Guarded::Ok(Some(_)));
